@@ -119,28 +119,86 @@ def make_case(rng):
         tv = 1.7e9 + np.cumsum([rng.choice([0.25, 600.0, 86400.0, 7.5]) for _ in range(nt)])
     order = INST + PART + ["particle_count"]
     rng.shuffle(order)
-    return dict(counts=counts, cdt=idt, pid=pid, npart=npart_dim, centers=centers, decreasing=decreasing, grid_kind=grid_kind,
+    # ---- what a LADiM output file carries besides the ragged arrays: the scalar `instance_offset` (number of instances stored in
+    # the preceding files of a split run, `numrec` > 0; 0 in a single file / the first file; the `particle_instance` dimension is
+    # always local to the file) and the CF attributes that ladim.output writes
+    r = rng.random()
+    if r < 0.30: offset = None
+    elif r < 0.42: offset = 0
+    elif r < 0.65: offset = rng.randrange(1, max(2, n))                      # fewer than the instances of this file
+    elif r < 0.75: offset = max(1, n)                                        # exactly as many
+    elif r < 0.92: offset = n + rng.randrange(1, 400)                        # more than this file holds
+    else: offset = rng.choice([10 ** 6, 2 ** 31 - 1, 3 * 10 ** 9])           # a long run
+    offset_dt = "int64" if offset is not None and offset > 2 ** 31 - 1 else rng.choice(["int64", "int64", "int64", "int32"])
+    offset_pos = rng.randrange(len(order) + 1)
+    attrs = rng.random() < 0.5
+    # `units` on the time stamps (decoded when a file is opened by name) only where the decoding is exact: whole seconds
+    time_units = attrs and t_kind == "hourly" and rng.random() < 0.6
+    return dict(offset=offset, offset_dt=offset_dt, offset_pos=offset_pos, attrs=attrs, time_units=time_units, counts=counts, cdt=idt, pid=pid, npart=npart_dim, centers=centers, decreasing=decreasing, grid_kind=grid_kind,
                 X=X, Y=Y, Z=Z, w=w, w2=w2, age=age, farmid=farmid, release_time=release_time, Zone=zone, grp=grp,
                 time=np.asarray(tv, dtype=float), order=order, pid_mode=pid_mode, w_kind=w_kind, t_kind=t_kind, long=long_)
 
 
-def build_ds(g, time="float"):
-    """a fresh dataset from private copies of the generated arrays"""
+VAR_ATTRS = dict(
+    particle_count=dict(long_name="number of particles in a given timestep", ragged_row_count="particle count at nth timestep"),
+    release_time=dict(long_name="particle release time", units="seconds since 1970-01-01 00:00:00"),
+    pid=dict(long_name="particle identifier"), X=dict(long_name="particle X-coordinate"), Y=dict(long_name="particle Y-coordinate"),
+    Z=dict(long_name="particle depth", standard_name="depth_below_surface", units="m", positive="down"),
+    w=dict(long_name="super particle weight"), age=dict(long_name="age", units="s"), farmid=dict(long_name="farm identifier"))
+OFFSET_ATTRS = dict(long_name="particle instance offset for file")
+GLOBAL_ATTRS = dict(Conventions="CF-1.8", institution="Institute of Marine Research", source="Lagrangian Advection and Diffusion Model",
+                    history="Created by ladim 2.3.3", date="2020-03-01")
+EPOCH_UNITS = "seconds since 1970-01-01 00:00:00"
+
+
+def build_ds(g, time="float", offset="own"):
+    """a fresh dataset from private copies of the generated arrays; `offset`: "own" = the generated `instance_offset`
+    (possibly none), None = no such variable, an int = that value"""
     import xarray as xr
+    off = g.get("offset") if offset == "own" else offset
+    at = bool(g.get("attrs"))
+    names = list(g["order"])
+    if off is not None:
+        names.insert(g.get("offset_pos", 0), "instance_offset")
     dv = {}
-    for name in g["order"]:
-        if name == "particle_count":
-            dv[name] = ("time", np.array(g["counts"], dtype=g["cdt"]))
+    for name in names:
+        a = dict(VAR_ATTRS.get(name, {})) if at else {}
+        if name == "instance_offset":
+            dv[name] = ((), np.array(off, dtype=g.get("offset_dt", "int64") if off <= 2 ** 31 - 1 else "int64"), dict(OFFSET_ATTRS) if at else {})
+        elif name == "particle_count":
+            dv[name] = ("time", np.array(g["counts"], dtype=g["cdt"]), a)
         elif name in INST:
-            dv[name] = ("particle_instance", g[name].copy())
+            dv[name] = ("particle_instance", g[name].copy(), a)
         else:
-            dv[name] = ("particle", g[name].copy())
+            dv[name] = ("particle", g[name].copy(), a)
     if time == "datetime":
         tv = np.datetime64("2020-03-01T00:00:00", "ms") + np.round((g["time"] - g["time"][0]) * 1000).astype("int64").astype("timedelta64[ms]")
         tv = tv.astype("datetime64[ns]")
     else:
         tv = g["time"].copy()
-    return xr.Dataset(data_vars=dv, coords=dict(time=("time", tv)))
+    ta = {}
+    if at and time != "datetime":
+        ta = dict(long_name="time", standard_name="time")
+        if g.get("time_units"):
+            ta["units"] = EPOCH_UNITS
+    return xr.Dataset(data_vars=dv, coords=dict(time=("time", tv, ta)), attrs=dict(GLOBAL_ATTRS) if at else {})
+
+
+def decoded_times(g, tv):
+    """the time stamps as CF decoding gives them when the file is opened by name: only generated for whole seconds since the epoch"""
+    tv = np.asarray(tv, dtype=float)
+    assert np.all(tv == np.round(tv))
+    return np.datetime64("1970-01-01T00:00:00", "s") + tv.astype("int64").astype("timedelta64[s]")
+
+
+def offset_tag(g, off="own", n=None):
+    """class of an `instance_offset` relative to the number n of instances the file holds"""
+    off = g["offset"] if off == "own" else off
+    n = len(g["pid"]) if n is None else n
+    if off is None: return "absent"
+    if off == 0: return "zero"
+    if off >= 10 ** 6: return "huge"
+    return "1..n-1" if off < n else ">=n"
 
 
 def describe(g):
@@ -252,6 +310,25 @@ def midway_ok(a, e):
         and abs((e[-1] - a[-1]) - (a[-1] - e[-2])) <= 1e-12 * (1 + abs(a[-1]))
 
 
+def raster_edges(ctx, lr, gk, gcent, gcs):
+    """the bin edges a `ladim_raster` result declares for the grid coordinates `gk` (bounds variables), judged to be contiguous
+    and midway between the centres `gcent`; -> (edges per coordinate, all present and contiguous)"""
+    gE = []; okb = True
+    for k in gk:
+        bname = lr[k].attrs.get("bounds")
+        if bname is None or bname not in lr.variables:
+            ctx.oracle(False, "C19.edges.not_midway", "ladim_plugins/utils/rasterize.py::add_edge_info", "no bounds for %r in the raster" % k, gcs)
+            return gE, False
+        b = np.asarray(lr[bname].values, dtype=float)
+        e = np.concatenate([b[:, 0], b[-1:, 1]])
+        contiguous = b.shape == (len(gcent[k]), 2) and bool(np.all(b[1:, 0] == b[:-1, 1]))
+        ctx.oracle(contiguous and midway_ok(gcent[k], e), "C19.edges.not_midway", "ladim_plugins/utils/rasterize.py::add_edge_info",
+                   "centres %r -> bounds %r" % (np.asarray(gcent[k]).tolist(), b.tolist()), gcs)
+        okb = okb and contiguous
+        gE.append([float(v) for v in e])
+    return gE, okb
+
+
 def own_edges(a):
     """midway edges computed independently (other rounding than `_edges` in the outer edges)"""
     a = np.asarray(a, dtype=float)
@@ -292,6 +369,9 @@ def run(ctx):
             ctx.branch("w2=" + ("int" if g["w2"].dtype.kind == "i" else "dyadic")); ctx.branch("time=" + g["t_kind"])
             ctx.branch("grid=" + g["grid_kind"]); ctx.branch("long" if g["long"] else "short")
             if g["npart"] > int(pid.max() if n else 0) + 12: ctx.branch("particle_dim>>max_pid")
+            ctx.branch("instance_offset=" + offset_tag(g))
+            if g["offset"] is not None: ctx.branch("instance_offset dtype=" + g["offset_dt"])
+            ctx.branch("attributes=" + ("ladim" + ("+time units" if g["time_units"] else "") if g["attrs"] else "none"))
             kd = dict(X=0, Y=1, Z=2)
             dec_used = g["decreasing"] is not None and "XYZ"[g["decreasing"]] in keys
             if g["decreasing"] is not None:
@@ -363,6 +443,8 @@ def run(ctx):
                 elif extra == "file":
                     fn = os.path.join(tmp, "raster_%d.nc" % c)
                     dsx.to_netcdf(fn); dsx = fn
+                    if g["time_units"]:
+                        want_t = decoded_times(g, g["time"])
                 r2 = None
                 try:
                     r2 = R.from_particles(dsx, list(keys), [e.tolist() for e in edges], vdims=vd2, **kw)
@@ -422,6 +504,64 @@ def run(ctx):
                             judge(ctx, SITE_LR, "ladim_raster slot %d" % t, hists(lr, gw, t), gE, [gcol[k][sl] for k in gk],
                                   {k: v[sl] for k, v in wts.items()}, dict(gcs, slot=t))
                     ctx.oracle(bool(lr["time"].values.shape == g["time"].shape and np.all(lr["time"].values == g["time"])), "C19.raster.times", SITE_LR, "time stamps changed", gcs)
+            # ---- the files of a split run (ladim `numrec` > 0): consecutive chunks in time, each with the whole particle table, a
+            # file-local `particle_instance` dimension and `instance_offset` = number of instances in the preceding files.
+            # Each file is a sparse LADiM dataset of its own: its raster conserves the particles of its own time slots.
+            if rng.random() < 0.5:
+                nch = rng.randrange(1, min(3, nt) + 1)
+                cuts = [0] + sorted(rng.sample(range(1, nt), nch - 1)) + [nt]
+                base = rng.choice([0, 0, 0, rng.randrange(1, 300)])                  # the run may have files before these
+                how = rng.choice(["dataset", "dataset", "file", "ladim_raster"])
+                ctx.branch("split run files=%d" % nch); ctx.branch("split run via " + how)
+                for j in range(nch):
+                    t0, t1 = cuts[j], cuts[j + 1]
+                    off = base + int(idx[t0])
+                    ctx.branch("split file instance_offset=" + offset_tag(g, off, int(idx[t1] - idx[t0])) + ("(first file)" if j == 0 else "(later file)"))
+                    scs = dict(cs, split=dict(cuts=cuts, file=j, instance_offset=off, via=how))
+
+                    def chunk():
+                        return build_ds(g, offset=off).isel(time=slice(t0, t1), particle_instance=slice(int(idx[t0]), int(idx[t1])))
+                    want_t = g["time"][t0:t1]
+                    rs = None
+                    if how == "ladim_raster":
+                        sk = list(keys); svd = tuple(v for v in vdims)
+                        sgrid = xr.Dataset(coords={k: (k, centers[kd[k]].copy()) for k in sk})
+                        site = SITE_LR
+                        try:
+                            rs = R.ladim_raster(chunk(), sgrid, weights=svd)
+                        except Exception as e:
+                            raster_raised(ctx, e, site, "ladim_raster on file %d of a split run" % j, dec_used, scs)
+                        if rs is not None:
+                            sE, okb = raster_edges(ctx, rs, sk, {k: centers[kd[k]] for k in sk}, scs)
+                            dims_ok = okb and all(rs["bincount" if v is None else v].dims == ("time",) + tuple(sk) for v in svd)
+                            ctx.oracle(dims_ok or not okb, "C19.raster.cell_counts", site, "raster dimensions %r for grid %r" % (rs["bincount" if svd[0] is None else svd[0]].dims, sk), scs)
+                            if not dims_ok:
+                                rs = None
+                    else:
+                        site = SITE_FP; sE = E
+                        src = chunk()
+                        if how == "file":
+                            fn = os.path.join(tmp, "split_%d_%d.nc" % (c, j))
+                            src.to_netcdf(fn); src = fn
+                            if g["time_units"]:
+                                want_t = decoded_times(g, want_t)
+                        try:
+                            rs = R.from_particles(src, list(keys), [e.tolist() for e in edges], vdims=vdims)
+                        except Exception as e:
+                            raster_raised(ctx, e, site, "from_particles on file %d of a split run" % j, dec_used, scs)
+                    if rs is None:
+                        continue
+                    okshape = all(rs["bincount" if v is None else v].values.shape[0] == t1 - t0 for v in vdims)
+                    ctx.oracle(okshape, "C19.raster.times", site, "file %d of a split run: %d time slots in the raster, %d in the file"
+                               % (j, rs["bincount" if vdims[0] is None else vdims[0]].values.shape[0], t1 - t0), scs)
+                    if not okshape:
+                        continue
+                    for t in range(t0, t1):
+                        sl, cols, ws = slot(t)
+                        judge(ctx, site, "split run file %d (instance_offset %d) slot %d" % (j, off, t - t0), hists(rs, vdims, t - t0), sE, cols, ws,
+                              dict(scs, slot=t - t0, slot_of_run=t))
+                    ctx.oracle(bool(rs["time"].values.shape == want_t.shape and np.all(rs["time"].values == want_t)), "C19.raster.times", site,
+                               "file %d of a split run: time stamps changed" % j, scs)
             # ---- sqlite
             want = sorted(tuple([float(g["time"][t])] + [float(g[v][i]) for v in INST]) for t in range(nt) for i in range(idx[t], idx[t + 1]))
             wantp = sorted(tuple(float(g[v][i]) for v in PART) for i in range(g["npart"]))
@@ -454,6 +594,9 @@ def run(ctx):
                 sub = os.path.join(tmp, "sql_%d" % c); os.mkdir(sub)
                 for j in range(nch):
                     ch = ds.isel(time=slice(cuts[j], cuts[j + 1]), particle_instance=slice(idx[cuts[j]], idx[cuts[j + 1]]))
+                    if g["offset"] is not None and g["offset"] + int(idx[cuts[j]]) <= 2 ** 31 - 1:
+                        # as ladim's multi-file writer numbers them: the instances stored in the preceding files
+                        ch["instance_offset"] = ch["instance_offset"] + np.array(int(idx[cuts[j]]), dtype=ch["instance_offset"].dtype)
                     ch.to_netcdf(os.path.join(sub, "out_%04d.nc" % j))
                 fo = os.path.join(sub, "out.sqlite")
                 C.ladim_file_to_sqlite(os.path.join(sub, "out_*.nc"), fo)
